@@ -174,7 +174,11 @@ def impl_port(case):
             except Exception as e:  # noqa: BLE001
                 res = [3, core.exn_code(e)]
                 if k == 6 and not port.closed:
-                    port.close()
+                    try:
+                        port.close()
+                    except Exception as e2:  # noqa: BLE001
+                        if fail is None:
+                            fail = ('close-raises', 'close() after a failed with-block raised %r' % (e2,))
                 if fail is None:
                     if k == 4:
                         fail = ('iteration-raises:' + type(e).__name__, 'iteration over the port raised %r (closed before: %r, queued before: %r)' % (e, closed_before, q_before))
@@ -340,7 +344,11 @@ def impl_ioport(case):
             except Exception as e:  # noqa: BLE001
                 res = [3, core.exn_code(e)]
                 if k == 6 and not port.closed:
-                    port.close()
+                    try:
+                        port.close()
+                    except Exception as e2:  # noqa: BLE001
+                        if fail is None:
+                            fail = ('close-raises', 'close() after a failed with-block raised %r' % (e2,))
                 legit = (k in (0, 6, 8) and ((closed_before and isinstance(e, ValueError)) or str(e) == 'device fault' or (outp.closed and isinstance(e, ValueError)))) \
                     or (k == 1 and arg and isinstance(e, (ValueError, OSError)) and inp.closed and not inp._messages)
                 if not legit and fail is None:
@@ -354,6 +362,10 @@ def impl_ioport(case):
             out += res + [1 if port.closed else 0, 1 if inp.closed else 0, sti['closes'], 1 if outp.closed else 0, sto['closes'], sti['sleeps'], sti['calls'],
                           len(sto['sent']), len(inp._messages), -9]
         out += [len(sto['sent'])] + sto['sent'] + [len(inp._messages)] + [msgid(m) for m in inp._messages]
+        if fail is None and ar and outp.closed and not any(faults) and 8 not in ops_kinds(ops):
+            rs = [x for x in sto['sent'] if x >= 1000]
+            if rs != [1000 + j for j in range(32)] or sto['sent'][-32:] != rs:
+                fail = ('ioport-autoreset', 'IOPort over an autoreset output port: the reset messages that reached the device are %r (expected the 32, once, last)' % (rs[:70],))
     finally:
         ports.sleep = saved
     return out, fail, 'ioport'
